@@ -133,11 +133,12 @@ class Scanner:
         if self.peek() in (" ", "\t"):
             self.next()
 
-        if value := self.scan_until(RE_NEWLINE):
-            self.emit(TokenKind.COMMENT_TEXT, value)
-        else:
-            # Empty comment text
-            self.emit(TokenKind.COMMENT_TEXT, "")
+        value = self.scan_until(RE_NEWLINE)
+        if value is None:
+            # The last line of the grammar, without a newline.
+            self.pos = len(self.grammar)
+            value = self.grammar[self.start : self.pos]
+        self.emit(TokenKind.COMMENT_TEXT, value)
 
         return self.scan_grammar
 
@@ -189,11 +190,12 @@ class Scanner:
         if self.peek() in (" ", "\t"):
             self.next()
 
-        if value := self.scan_until(RE_NEWLINE):
-            self.emit(TokenKind.COMMENT_TEXT, value)
-        else:
-            # Empty comment text
-            self.emit(TokenKind.COMMENT_TEXT, "")
+        value = self.scan_until(RE_NEWLINE)
+        if value is None:
+            # The last line of the grammar, without a newline.
+            self.pos = len(self.grammar)
+            value = self.grammar[self.start : self.pos]
+        self.emit(TokenKind.COMMENT_TEXT, value)
 
         return self.scan_grammar_rule
 
